@@ -138,15 +138,16 @@ func bcastGen(t *rapid.T) bcastCase {
 	c.Interval = rapid.IntRange(3, 25).Draw(t, "interval")
 	c.UseMap = rapid.Bool().Draw(t, "usemap")
 	n := c.NTx
-	kinds := []string{
-		"bcast", "bcast", "bcast", "bcast", "bcast", "bcast", "bcast", "bcast", "bcast",
-		"block", "block", "block", "block", "block",
-		"tick", "tick", "tick",
-		"confirm", "confirm", "confirm", "confirm",
-		"wait", "wait",
-		"stop",
+	var kinds []string
+	for _, kw := range []struct {
+		k string
+		w int
+	}{{"bcast", 15}, {"block", 11}, {"tick", 5}, {"confirm", 7}, {"wait", 1}, {"stop", 1}} {
+		for j := 0; j < kw.w; j++ {
+			kinds = append(kinds, kw.k)
+		}
 	}
-	outs := []string{"ok", "ok", "ok", "ok", "ok", "ok", "mempool", "mempool", "mempool",
+	outs := []string{"ok", "ok", "ok", "ok", "ok", "ok", "ok", "ok", "mempool", "mempool", "mempool", "mempool",
 		"invalid", "fee", "unknown", "confirmed", "plain"}
 	c.Ops = rapid.SliceOfN(rapid.Custom(func(t *rapid.T) bcastOp {
 		return bcastOp{
@@ -156,7 +157,7 @@ func bcastGen(t *rapid.T) bcastCase {
 			Lat:  rapid.SampledFrom([]int{0, 0, 0, 0, 1, 2, 3, 5}).Draw(t, "lat"),
 			Gap:  rapid.SampledFrom([]int{0, 1, 1, 1, 2, 2, 3, 5, 8}).Draw(t, "gap"),
 		}
-	}), 3, 28).Draw(t, "ops")
+	}), 4, 32).Draw(t, "ops")
 	rebOuts := []string{"ok", "ok", "ok", "ok", "ok", "mempool", "mempool", "confirmed", "confirmed", "invalid", "plain"}
 	c.Reb = make([][]bcastReb, n)
 	for i := 0; i < n; i++ {
@@ -289,8 +290,8 @@ type bcastOpRec struct {
 }
 
 type bcastRun struct {
-	c     bcastCase
-	txs   []*wire.MsgTx
+	c      bcastCase
+	txs    []*wire.MsgTx
 	byHash map[chainhash.Hash]int
 
 	mu      sync.Mutex
@@ -445,6 +446,9 @@ func bcastExec(t *testing.T, r *bcastRun) (harness string, leak string) {
 	}()
 	synctest.Test(t, func(t *testing.T) {
 		r.start = time.Now()
+		// made inside the bubble: a select on a channel from outside is not
+		// a durable block and would freeze virtual time
+		r.done = make(chan struct{})
 		sub := &blockntfns.Subscription{
 			// Unbuffered, like the channel the real subscription manager
 			// hands out: a send completes at the instant the client takes
@@ -559,12 +563,12 @@ func (ro *bcastRound) start() time.Duration { return ro.calls[0].begin }
 func (ro *bcastRound) last() *bcastCall     { return ro.calls[len(ro.calls)-1] }
 
 type bcastOracle struct {
-	r     *bcastRun
-	v     *kit.Verdict
-	busy  []bcastSpan // merged spans in which the handler may be occupied
-	evts  [][]bcastEvt
-	stopI time.Duration // first Stop invoked
-	stopR time.Duration // first Stop returned (valid if stopDone)
+	r        *bcastRun
+	v        *kit.Verdict
+	busy     []bcastSpan // merged spans in which the handler may be occupied
+	evts     [][]bcastEvt
+	stopI    time.Duration // first Stop invoked
+	stopR    time.Duration // first Stop returned (valid if stopDone)
 	stopDone bool
 }
 
@@ -747,7 +751,7 @@ func (o *bcastOracle) liveness() {
 				o.fail("C15/markasconfirmed-after-stop/blocks-forever",
 					"op %d: MarkAsConfirmed(tx%d) invoked at %s, Stop() invoked at %s: the call never returned",
 					i, rec.op.Tx, bcastFmtAt(rec.invoked), bcastFmtAt(o.stopI))
-			case o.busyHi(rec.invoked) != rec.invoked || o.busyInside(rec.invoked):
+			case o.busyInside(rec.invoked):
 				// Invoked while the handler was inside a first attempt;
 				// Stop() arrived before the handler came back.
 				o.v.Class("blocked/markasconfirmed-racing-stop")
@@ -1046,7 +1050,9 @@ func (o *bcastOracle) rounds() (nontrivial bool) {
 
 func (o *bcastOracle) describe(tx int) string {
 	var s []string
-	for _, e := range o.evts[tx] {
+	evs := append([]bcastEvt{}, o.evts[tx]...)
+	sort.SliceStable(evs, func(i, j int) bool { return evs[i].lo < evs[j].lo })
+	for _, e := range evs {
 		w := bcastFmtAt(e.lo)
 		if e.hi != e.lo {
 			w += ".." + bcastFmtAt(e.hi)
@@ -1073,7 +1079,7 @@ func bcastRunCase(t *testing.T, c bcastCase) kit.Verdict {
 		return v
 	}
 	r := &bcastRun{c: c, txs: bcastBuildTxs(c), byHash: map[chainhash.Hash]int{},
-		pending: map[*wire.MsgTx]int{}, nReb: make([]int, c.NTx), done: make(chan struct{})}
+		pending: map[*wire.MsgTx]int{}, nReb: make([]int, c.NTx)}
 	for i, tx := range r.txs {
 		r.byHash[tx.TxHash()] = i
 	}
@@ -1099,11 +1105,13 @@ func bcastRunCase(t *testing.T, c bcastCase) kit.Verdict {
 	if !o.prepare() {
 		return v
 	}
-	o.liveness()
+	// The safety checks come first so that the (known) liveness finding
+	// cannot mask another violation in the same case.
 	if o.stopDone {
 		o.results()
 		v.Nontrivial = o.rounds()
 	}
+	o.liveness()
 	blocked := 0
 	for _, rec := range r.ops {
 		if rec.issued && !rec.returned {
